@@ -184,7 +184,7 @@ def judgeScoreOp (op : List String) (impl : String) : Option (Option String × L
     match floatOp name (parseHexN x) (parseHexN y) with
     | some r =>
       -- NaN payloads are not modelled: arithmetic results that are NaN are compared as "nan"
-      let arith := ["add", "sub", "mul", "div", "min"].contains name
+      let arith := ["add", "sub", "mul", "div", "min", "round", "rte", "floor"].contains name
       let m := if arith && F64.isNaN r then "nan" else hexN r
       some ((if m = impl then none else some m), [], "", "U" ++ name)
     | none => none
